@@ -259,12 +259,14 @@ def opt_case(spec, pid):
             serr = optcommon.dangling(m2)
         if serr:
             culprit = optcommon.attribute(m, o, lambda x: not optcommon.structural(x) and not optcommon.dangling(x), fired, known)
-            res["c04"].append({"key": f"mech={culprit or '?'};kind=invalid", "what": f"{o['api']}({_optstr(o)}) result invalid: {serr[:300]}",
+            kind = "output_type_lost" if "Field 'type' of 'value_info' is required but missing" in serr else "invalid"
+            res["c04"].append({"key": f"mech={culprit or '?'};kind={kind}", "what": f"{o['api']}({_optstr(o)}) result invalid: {serr[:300]}",
                                "detail": {"opts": o, "case": label, "fired": list(dict.fromkeys(fired))[:20]}})
         sd = optcommon.sig_diff(m, m2)
         if sd:
             culprit = optcommon.attribute(m, o, lambda x: optcommon.sig_diff(m, x) is None, fired, known)
-            res["c04"].append({"key": f"mech={culprit or '?'};kind=signature", "what": f"{o['api']}({_optstr(o)}): {sd}",
+            kind = "output_type_lost" if sd.endswith("-> (None, None)") else "signature"
+            res["c04"].append({"key": f"mech={culprit or '?'};kind={kind}", "what": f"{o['api']}({_optstr(o)}): {sd}",
                                "detail": {"opts": o, "case": label, "fired": list(dict.fromkeys(fired))[:20]}})
         # ---- C03: semantics
         v, d = optcommon.equivalent(m, m2, feeds_list, base_main)
